@@ -178,6 +178,8 @@ class Ctx:
         self.fails = []
         self._seen = set()
         self.top_consts = None  # name -> info about single top-level declarations (lazy)
+        self.visited = set()    # spans of AST literals that were paired with a graph literal
+        self.unaligned = False  # some subtree could not be paired
 
     def text(self, s, e):
         return self.bsrc[s:e].decode("utf-8", errors="replace")
@@ -292,6 +294,10 @@ def literal_source_facts(c, lit):
             c.fail("C10", "int_suffix_accepted", span="%d-%d" % (s, e), text=tohex(text), accessor=k[2])
             return {"cls": "int", "text": text, "ok": False}
         c.count("int_suffix_accepted")
+        if v >= TWO128:
+            # outside C10's range [0, 2^128): the accessor returns None and the pass panics on use
+            c.count("int_out_of_range(not checked)")
+            return {"cls": "int", "text": text, "value": v, "ok": False}
         c.count("accessor_int")
         if not (k[2].isdigit() and int(k[2]) == v):
             c.fail("C10", "accessor_int", span="%d-%d" % (s, e), text=tohex(text), want=v, got=k[2])
@@ -350,6 +356,7 @@ def check_lit(c, lit, t, neg):
     e = t[2]
     if not (isinstance(e, list) and e[0] == "Lit"):
         raise Unaligned("literal vs %r" % (e[0] if isinstance(e, list) else e))
+    c.visited.add((lit[1], lit[2]))
     L = e[1]
     sp = "%s-%s" % (lit[1], lit[2])
     if not f["ok"]:
@@ -409,6 +416,7 @@ def check_timing(c, tl, t, neg):
     ex = t[2]
     if not (isinstance(ex, list) and ex[0] == "Lit"):
         raise Unaligned("timing literal vs non literal")
+    c.visited.add((lit[1], lit[2]))
     L = ex[1]
     if not f["ok"] or f["cls"] not in ("int", "float"):
         return
@@ -482,16 +490,6 @@ def le_tower(a, b):
     return RANK[ka] < RANK[kb]
 
 
-def operand_original(t, tau):
-    """operand of an arithmetic node of type tau: the candidate 'original' types.  A user-written
-    cast cannot be told from an inserted one here, so both readings are returned."""
-    out = [t[1]]
-    e = t[2]
-    if isinstance(e, list) and e[0] == "Cast" and e[1] == tau and is_T(e[2]) and e[2][1] != tau:
-        out.append(e[2][1])
-    return out
-
-
 def well_typed(c, n):
     """recursive over the whole asg S-expression"""
     if not isinstance(n, list):
@@ -546,8 +544,6 @@ def well_typed(c, n):
                     oe = o[2]
                     if not (o[1] == ty and (True if not (isinstance(oe, list) and oe[0] == "Cast") else oe[1] == ty)):
                         c.fail("C08", "well_typed", rule="arith_operand", side=side, node=ty, operand=o[1])
-                if ty != "Void":
-                    arith_common_type(c, op, ty, e[2], e[3])
             else:
                 c.count("todo_typed_binary(not checked)")
         elif head in ("Ident",):
@@ -586,9 +582,11 @@ def well_typed(c, n):
         well_typed(c, x)
 
 
-def arith_common_type(c, op, tau, l, r):
-    """tau must be an upper bound of the (original) operand types when both are tower types"""
-    cands = [(a, b) for a in operand_original(l, tau) for b in operand_original(r, tau)]
+def arith_common_type(c, op, tau, lo, ro):
+    """tau must be an upper bound of the ORIGINAL operand types when both are tower types.  Called
+    from the parallel walk, which knows (from the AST) whether a cast was written or inserted, so
+    lo / ro are the texprs standing for the written operands."""
+    cands = [(lo[1], ro[1])]
     cands = [(a, b) for a, b in cands if tinfo(a)[0] in TOWER and tinfo(b)[0] in TOWER]
     if not cands:
         c.count("arith_nontower(not checked)")
@@ -800,10 +798,6 @@ def check_declared(c, where, sym, st, const):
         return
     ws = wspec_of(c, scalar_designator(st))
     recorded = aw if ak not in ("Bit", "Qubit") else None
-    if wk in ("Bit", "Qubit") and ws[0] == "lit" and ws[1] < TWO32 and ak in ("Bit", "Qubit"):
-        c.count("declared_type.width_literal")
-        c.fail("C09", "declared_type", where=where, part="register", want=ws[1], got=actual)
-        return
     check_width(c, ws, recorded, where, actual)
 
 
@@ -855,6 +849,7 @@ def dropped_literal(c, a):
     if isinstance(a0, list) and a0[0] == "Literal" and isinstance(a0[3], list) and a0[3][0] == "BitString" \
             and a0[3][2] == "_":
         lit_facts(c, a0)
+        c.visited.add((a0[1], a0[2]))
         return True
     return False
 
@@ -890,6 +885,7 @@ def align_list(c, exprs, ts):
             align(c, x, t)
         except Unaligned:
             COUNTS["(unaligned expression)"] += 1
+            c.unaligned = True
 
 
 def align_index_op(c, io, ix):
@@ -975,6 +971,8 @@ def walk_expr(c, a, t):
         ro = align(c, a[5], e[3], inserted_ok=arith)
         if arith:
             arith_void(c, a, t, lo, ro)
+            if t[1] != "Void":
+                arith_common_type(c, op, t[1], lo, ro)
     elif k == "Identifier":
         expect(e, "Ident", 2)
     elif k == "HardwareQubit":
@@ -990,6 +988,13 @@ def walk_expr(c, a, t):
     elif k == "MeasureExpression":
         expect(e, "Measure", 2)
         align_gate_operand(c, a[3], e[1])
+        ot = e[1][1]
+        if ot not in ("Qubit", "HardwareQubit") and not ot.startswith("QubitArray_"):
+            # "a measurement has the bit shape of its operand": a non-quantum operand has none, so
+            # the property requires a diagnostic at the operand
+            c.count("measure_nonquantum_diagnosed")
+            if not c.has_err_within(("IncompatibleTypesError", "UndefVarError"), int(a[3][1]), int(a[3][2])):
+                c.fail("C08", "measure_nonquantum_diagnosed", span="%s-%s" % (a[3][1], a[3][2]), operand=ot, got=t[1])
     elif k == "ReturnExpr":
         expect(e, "Return", 2)
         if a[3] != "_":
@@ -1031,4 +1036,1200 @@ def arith_void(c, a, t, lo, ro):
     c.fail("C08", "arith_void_undiagnosed", span="%d-%d" % (s, e), op=t[2][1], l=lt, r=rt)
 
 
-# ==CONTINUE==
+# --------------------------------------------------------------------------------------------
+# C08 (b)(c)(d): declaration / assignment decisions
+# --------------------------------------------------------------------------------------------
+def value_form(t):
+    """short description of the ASG expression that stands for the written value"""
+    e = t[2]
+    if not isinstance(e, list):
+        return str(e)
+    if e[0] == "Lit" and isinstance(e[1], list):
+        L = e[1]
+        if L[0] in ("Int", "ImInt"):
+            return "Lit:%s%s" % (L[0], L[2])
+        if L[0] == "ImFloat":
+            return "Lit:ImFloat"
+        return "Lit:%s" % L[0]
+    return e[0]
+
+
+def downward(T, V, form):
+    """name of the downward-conversion class of (target T, value type V), or None"""
+    kt, wt, _ = tinfo(T)
+    kvv, wv, cv = tinfo(V)
+    if form.startswith("Lit:ImInt") or form == "Lit:ImFloat":
+        kvv, wv = "Complex", None
+    if kt not in CLASSICAL or kvv not in CLASSICAL:
+        return None
+    if kvv == "Float" and kt in ("Int", "UInt"):
+        return "float_to_int"
+    if kvv == "Complex" and kt in ("Float", "Int", "UInt"):
+        return "complex_to_real"
+    if form == "Lit:Int-" and kt == "UInt":
+        return "negative_to_unsigned"
+    if kt != kvv and (kt in SPECIAL or kvv in SPECIAL):
+        return "special_kind"
+    if kt != kvv and "Angle" in (kt, kvv):
+        return "angle_kind"
+    if kt == kvv and isinstance(wt, int) and isinstance(wv, int) and wt < wv \
+            and not form.startswith("Lit:") and not cv:
+        return "narrowing"
+    return None
+
+
+def decision(c, which, T, final_t, orig_t, s, e):
+    sp = "%d-%d" % (s, e)
+    form = value_form(orig_t)
+    diag = c.has_err(TYPE_DIAG, s, e)
+    casted = final_t is not orig_t
+    c.count(which)
+    if not (eq_upto_const(final_t[1], T) or diag):
+        c.fail("C08", which, span=sp, target=T, value=final_t[1], orig=orig_t[1], form=form, cast=int(casted))
+    d = downward(T, orig_t[1], form)
+    c.count("no_silent_downward" if d else "no_silent_downward(not downward)")
+    if d and not diag:
+        c.fail("C08", "no_silent_downward", span=sp, stmt=which.split("_")[0], cls=d, target=T,
+               orig=orig_t[1], form=form, cast=int(casted))
+
+
+# --------------------------------------------------------------------------------------------
+# parallel walk: statements
+# --------------------------------------------------------------------------------------------
+NO_ASG = ("Include", "VersionString", "AnnotationStatement")
+NULL_STMTS = ("OldStyleDeclarationStatement", "DefCal", "Cal", "DefCalGrammar", "LetStmt", "Measure", "ExternStmt")
+
+
+def walk_stmts(c, asts, asgs, top=False):
+    asts = [s for s in asts if isinstance(s, list) and s[0] not in NO_ASG]
+    if not isinstance(asgs, list) or len(asts) != len(asgs):
+        COUNTS["(unaligned statement list)"] += 1
+        c.unaligned = True
+        return
+    for a, g in zip(asts, asgs):
+        if top and isinstance(g, list) and g and g[0] == "Annotated":
+            g = g[1]
+        try:
+            walk_stmt(c, a, g)
+            COUNTS["(aligned statement)"] += 1
+        except Unaligned as ex:
+            COUNTS["(unaligned statement)"] += 1
+            COUNTS["(unaligned: %s)" % str(ex)[:40]] += 1
+            c.unaligned = True
+        except (IndexError, TypeError, ValueError) as ex:
+            COUNTS["(unaligned statement: shape error)"] += 1
+            c.unaligned = True
+
+
+def walk_bos(c, bos, block):
+    expect(block, "Block", 2)
+    if not isinstance(bos, list):
+        raise Unaligned("body accessor")
+    if bos[0] == "BosBlock":
+        walk_stmts(c, bos[1][3], block[1])
+    elif bos[0] == "BosStmt":
+        if len(block[1]) != 1:
+            raise Unaligned("single statement body")
+        walk_stmts(c, [bos[1]], block[1])
+    else:
+        raise Unaligned("body")
+
+
+def walk_qubit_list(c, ql, ts):
+    if not isinstance(ql, list) or ql[0] != "QubitList" or len(ql[3]) != len(ts):
+        raise Unaligned("qubit list")
+    for a, t in zip(ql[3], ts):
+        align_gate_operand(c, a, t)
+
+
+def walk_gate_call(c, gc, g, mods):
+    # (GateCallExpr s e qubit_list arg_list identifier) vs (GateCall sym params|_ (qubits) (mods))
+    expect(gc, "GateCallExpr", 6)
+    expect(g, "GateCall", 5)
+    walk_qubit_list(c, gc[3], g[3])
+    if gc[4] != "_":
+        el = gc[4][3]
+        align_list(c, el[3] if isinstance(el, list) else [], g[2])
+    walk_modifiers(c, mods, g[4])
+
+
+def walk_modifiers(c, mods, gm):
+    if len(mods) != len(gm):
+        raise Unaligned("modifiers")
+    for m, x in zip(mods, gm):
+        if m[0] == "InvModifier":
+            continue
+        if not isinstance(x, list):
+            raise Unaligned("modifier")
+        pe = m[3]
+        if pe == "_":
+            continue
+        if x[1] == "_":
+            raise Unaligned("modifier arg")
+        align(c, pe, x[1])
+
+
+def walk_stmt(c, a, g):
+    k = a[0]
+    s, e = int(a[1]), int(a[2])
+    if k == "ClassicalDeclarationStatement":
+        expect(g, "DeclareClassical", 3)
+        sym, init = g[1], g[2]
+        array, st, const, name, ex = a[3], a[4], a[5] == "1", a[6], a[7]
+        if array == "0":
+            check_declared(c, "classical@%d-%d" % (s, e), sym, st, const)
+        if ex == "_":
+            if init != "_":
+                raise Unaligned("initializer without expression")
+            return
+        if init == "_":
+            if dropped_literal(c, strip_paren(ex) if False else ex):
+                c.count("bitstring_initializer_dropped")
+                c.fail("C10", "bitstring_initializer_dropped", span="%d-%d" % (s, e))
+                return
+            raise Unaligned("initializer missing")
+        orig = align(c, ex, init, inserted_ok=True)
+        if array != "0":
+            return
+        T = c.sym_type(sym) if sym.startswith("ok:") else written_type_string(c, st, const)
+        if T is None:
+            c.count("decl_decision(target unknown, not checked)")
+            return
+        decision(c, "decl_decision", T, init, orig, s, e)
+    elif k == "AssignmentStmt":
+        expect(g, "Assignment", 3)
+        lv, rv = g[1], g[2]
+        if a[3] != "_":
+            expect(lv, "LIdent", 2)
+            orig = align(c, a[4], rv, inserted_ok=True)
+            T = c.sym_type(lv[1])
+            if T is not None:
+                decision(c, "assign_decision", T, rv, orig, s, e)
+        else:
+            expect(lv, "LIndexed", 2)
+            align_indexed_ident(c, a[5], lv[1])
+            align(c, a[4], rv)
+    elif k == "IODeclarationStatement":
+        expect(g, "InputDeclaration" if a[6] == "1" else "OutputDeclaration", 2)
+        if a[3] == "0":
+            check_declared(c, "io@%d-%d" % (s, e), g[1], a[4], False)
+    elif k == "QuantumDeclarationStatement":
+        if a[3] == "_":
+            expect(g, "DeclareHardwareQubit", 2)
+            return
+        expect(g, "DeclareQuantum", 2)
+        actual = c.sym_type(g[1])
+        if actual is not None and isinstance(a[5], list):
+            ak, aw, _ = tinfo(actual)
+            where = "quantum@%d-%d" % (s, e)
+            c.count("declared_type.kind")
+            if ak not in ("Qubit", "QubitArray"):
+                c.fail("C09", "declared_type", where=where, part="kind", written="Qubit", got=actual)
+            else:
+                check_width(c, wspec_of(c, a[5][3]), aw if ak == "QubitArray" else None, where, actual)
+    elif k == "IfStmt":
+        expect(g, "If", 4)
+        align(c, a[3], g[1])
+        walk_bos(c, a[4], g[2])
+        if a[5] != "_":
+            walk_bos(c, a[5], g[3])
+        elif g[3] != "_":
+            raise Unaligned("else")
+    elif k == "WhileStmt":
+        expect(g, "While", 3)
+        align(c, a[3], g[1])
+        walk_bos(c, a[4], g[2])
+    elif k == "ForStmt":
+        expect(g, "ForStmt", 4)
+        check_declared(c, "loopvar@%d-%d" % (s, e), g[1], a[4], False)
+        it, gi = a[5], g[2]
+        if isinstance(it, list) and isinstance(gi, list):
+            try:
+                if it[3] != "_":
+                    expect(gi, "IterSet", 2)
+                    el = it[3][3]
+                    align_list(c, el[3] if isinstance(el, list) else [], gi[1][1])
+                elif it[4] != "_":
+                    expect(gi, "IterRange", 2)
+                    align_range(c, it[4], gi[1])
+                elif it[5] != "_":
+                    expect(gi, "IterExpr", 2)
+                    align(c, it[5], gi[1])
+            except Unaligned:
+                COUNTS["(unaligned expression)"] += 1
+                c.unaligned = True
+        walk_bos(c, a[6], g[3])
+    elif k == "SwitchCaseStmt":
+        expect(g, "SwitchCase", 4)
+        align(c, a[3], g[1])
+        if len(a[4]) != len(g[2]):
+            raise Unaligned("cases")
+        for ca, cg in zip(a[4], g[2]):
+            align_list(c, ca[3][3] if isinstance(ca[3], list) else [], cg[1])
+            if isinstance(ca[4], list):
+                walk_stmts(c, ca[4][3], cg[2])
+        if a[5] != "_":
+            if g[3] == "_":
+                raise Unaligned("default")
+            walk_stmts(c, a[5][3], g[3])
+    elif k == "Gate":
+        expect(g, "GateDefinition", 5)
+        walk_gate_def(c, a, g)
+    elif k == "Def":
+        expect(g, "DefStmt", 5)
+        walk_def(c, a, g)
+    elif k == "Barrier":
+        expect(g, "Barrier", 2)
+        walk_qubit_list(c, a[3], g[1])
+    elif k == "DelayStmt":
+        expect(g, "Delay", 3)
+        walk_qubit_list(c, a[3], g[2])
+        if isinstance(a[4], list):
+            align(c, a[4][3], g[1])
+    elif k == "Reset":
+        expect(g, "Reset", 2)
+        align_gate_operand(c, a[3], g[1])
+    elif k == "ExprStmt":
+        ex = a[3]
+        if not isinstance(ex, list):
+            raise Unaligned("empty expression statement")
+        if ex[0] == "GateCallExpr":
+            walk_gate_call(c, ex, g, [])
+        elif ex[0] == "ModifiedGateCallExpr":
+            if ex[4] != "_":
+                walk_gate_call(c, ex[4], g, ex[3])
+            else:
+                expect(g, "ModifiedGPhaseCall", 3)
+                align(c, ex[5][3], g[1])
+                walk_modifiers(c, ex[3], g[2])
+        elif ex[0] == "GPhaseCallExpr":
+            expect(g, "GPhaseCall", 2)
+            align(c, ex[3], g[1])
+        else:
+            expect(g, "ExprStmt", 2)
+            align(c, ex, g[1])
+    elif k == "AliasDeclarationStatement":
+        expect(g, "Alias", 3)
+        align(c, a[4], g[2])
+        st = c.sym_type(g[1])
+        if st is not None:
+            c.count("alias_type")
+            if st != g[2][1]:
+                c.fail("C09", "alias_type", span="%d-%d" % (s, e), want=g[2][1], got=st)
+    elif k == "PragmaStatement":
+        expect(g, "Pragma", 2)
+    elif k in ("BreakStmt", "ContinueStmt", "EndStmt"):
+        if g != {"BreakStmt": "Break", "ContinueStmt": "Continue", "EndStmt": "End"}[k]:
+            raise Unaligned(k)
+    elif k in NULL_STMTS:
+        if g != "NullStmt":
+            raise Unaligned(k)
+    else:
+        raise Unaligned("statement kind %s" % k)
+
+
+def walk_gate_def(c, a, g):
+    # (Gate s e name angle_params|_ qubit_params body) vs (GateDefinition sym params|_ (qubits) (Block ..))
+    s, e = int(a[1]), int(a[2])
+    sp = "%d-%d" % (s, e)
+    aps = a[4][3] if isinstance(a[4], list) else None
+    qps = a[5][3] if isinstance(a[5], list) else []
+    np_, nq = (len(aps) if aps is not None else 0), len(qps)
+    st = c.sym_type(g[1])
+    if st is not None:
+        c.count("gate_signature")
+        if st != "Gate_%d_%d" % (np_, nq):
+            c.fail("C09", "gate_signature", span=sp, want="Gate_%d_%d" % (np_, nq), got=st)
+    gp = g[2] if isinstance(g[2], list) else []
+    c.count("gate_params")
+    if (aps is None) != (g[2] == "_") or len(gp) != np_ or len(g[3]) != nq:
+        c.fail("C09", "gate_params", span=sp, part="count", want="%d/%d" % (np_, nq), got="%d/%d" % (len(gp), len(g[3])))
+    else:
+        for sym in gp:
+            t = c.sym_type(sym)
+            if t is not None:
+                c.count("gate_params")
+                if t != "Angle_-_c":
+                    c.fail("C09", "gate_params", span=sp, part="angle", want="Angle_-_c", got=t)
+        for sym in g[3]:
+            t = c.sym_type(sym)
+            if t is not None:
+                c.count("gate_params")
+                if t != "Qubit":
+                    c.fail("C09", "gate_params", span=sp, part="qubit", want="Qubit", got=t)
+    if isinstance(a[6], list):
+        expect(g[4], "Block", 2)
+        walk_stmts(c, a[6][3], g[4][1])
+
+
+def walk_def(c, a, g):
+    # (Def s e name typed_param_list body return_sig) vs (DefStmt sym (params) (Block ..) rettype)
+    s, e = int(a[1]), int(a[2])
+    sp = "%d-%d" % (s, e)
+    tps = a[4][3] if isinstance(a[4], list) else []
+    if len(tps) != len(g[2]):
+        c.count("def_params")
+        c.fail("C09", "def_params", span=sp, part="count", want=len(tps), got=len(g[2]))
+    else:
+        for tp, sym in zip(tps, g[2]):
+            # (TypedParam s e param_type old name)
+            if isinstance(tp[3], list) and tp[3][0] == "ScalarType":
+                # parameters are bound non-const (bind_typed_parameter_list passes isconst = false)
+                check_declared(c, "defparam@%s-%s" % (tp[1], tp[2]), sym, tp[3], False)
+    # The return type is converted with isconst = true by the pass (Def arm of stmt_to_asg_stmt), so
+    # the recorded return type is the written scalar type marked const; the property only says
+    # "return type", so the const flag of the return type is encoded as the code does it.
+    rs = a[6]
+    want_ret = "Void"
+    if isinstance(rs, list) and isinstance(rs[3], list):
+        want_ret = written_type_string(c, rs[3], True)
+    st = c.sym_type(g[1])
+    if st is not None and st.startswith("Sub_"):
+        n, ret = sub_parts(st)
+        c.count("def_signature")
+        if n != len(tps):
+            c.fail("C09", "def_signature", span=sp, part="params", want=len(tps), got=st)
+        if want_ret is not None:
+            c.count("def_signature")
+            if ret != want_ret:
+                c.fail("C09", "def_signature", span=sp, part="return", want=want_ret, got=st)
+        c.count("def_return_printed")
+        if g[4] != ret:
+            c.fail("C09", "def_return_printed", span=sp, symbol=ret, stmt=g[4])
+    elif st is not None:
+        c.count("def_signature")
+        c.fail("C09", "def_signature", span=sp, part="kind", got=st)
+    if want_ret is not None:
+        c.count("def_return_printed")
+        if g[4] != want_ret:
+            c.fail("C09", "def_return_printed", span=sp, want=want_ret, stmt=g[4])
+    if isinstance(a[5], list):
+        expect(g[3], "Block", 2)
+        walk_stmts(c, a[5][3], g[3][1])
+
+
+# --------------------------------------------------------------------------------------------
+# C09: gate listing
+# --------------------------------------------------------------------------------------------
+def gates_listing(c):
+    sema = c.sema
+    want = []
+    for k in sorted(sema.symbols):
+        nm, ty = sema.symbols[k]
+        if ty.startswith("Gate_") and k != 6:  # 6 = the builtin U
+            p = ty.split("_")
+            want.append((nm, int(p[1]), int(p[2])))
+    c.count("gates_listing")
+    if want != sema.gates:
+        missing = [g for g in want if g not in sema.gates]
+        extra = [g for g in sema.gates if g not in want]
+        c.fail("C09", "gates_listing",
+               missing=",".join("%s:%d:%d" % g for g in missing[:4]),
+               extra=",".join("%s:%d:%d" % g for g in extra[:4]), n_want=len(want), n_got=len(sema.gates))
+    incs = [s for s in c.ast[3] if is_std_include(s)]
+    if incs:
+        names = {nm for nm, _ in sema.symbols.values()}
+        nred = sum(1 for s in incs if c.has_err(("RedeclarationError",), int(s[1]), int(s[2])))
+        c.count("stdgates_listing")
+        for g in STD_GATES:
+            if g in sema.gates:
+                continue
+            # bound by the user before the include: then the include must have reported it
+            if g[0] in names and nred > 0:
+                continue
+            c.fail("C09", "stdgates_listing", missing="%s:%d:%d" % g)
+            break
+
+
+def graph_literals(n, out, in_type=False, stmt=None):
+    """AST literals that are evaluated as expressions (everything except type designators), each
+    with the innermost enclosing statement node"""
+    if not isinstance(n, list) or not n:
+        return
+    if n[0] == "Literal" and len(n) == 4:
+        if not in_type:
+            out.append((n, stmt))
+        return
+    if n[0] in ("ScalarType", "QubitType"):
+        in_type = True
+    if isinstance(n[0], str) and (n[0].endswith("Stmt") or n[0].endswith("Statement")
+                                  or n[0] in ("Gate", "Def", "Barrier", "Reset")):
+        stmt = n
+    for x in n:
+        graph_literals(x, out, in_type, stmt)
+
+
+def literals_reach_graph(c):
+    """C10 'for every literal in an accepted program the graph holds its value': every literal in
+    expression position must have been paired with a graph literal by the parallel walk"""
+    if c.unaligned:
+        return
+    lits = []
+    graph_literals(c.ast, lits)
+    for lit, stmt in lits:
+        f = lit_facts(c, lit)
+        if not f["ok"] and not f.get("dropped"):
+            continue
+        c.count("literal_reaches_graph")
+        if (lit[1], lit[2]) not in c.visited:
+            c.fail("C10", "literal_reaches_graph", span="%s-%s" % (lit[1], lit[2]),
+                   stmt=stmt[0] if stmt else "-", stmt_span="%s-%s" % (stmt[1], stmt[2]) if stmt else "-")
+
+
+# --------------------------------------------------------------------------------------------
+# entry point
+# --------------------------------------------------------------------------------------------
+def check(src, ast_line, sema_line):
+    """returns (property_id, check_name, detail) for each violated clause"""
+    if not ast_line.startswith("(Program") or not sema_line.startswith("asg="):
+        return []
+    ast, _ = parse_sexp(ast_line, 0)
+    sema = parse_sema(sema_line)
+    if sema is None:
+        return []
+    c = Ctx(src, ast, sema)
+    # C10 accessor values, for every literal of the tree (designators included)
+    lits = []
+    all_ast_literals(ast, lits)
+    for l in lits:
+        lit_facts(c, l)
+    # C08 (a)
+    well_typed(c, sema.asg)
+    # parallel walk: C08 (b)(c)(d), C09 declarations, C10 graph literals
+    walk_stmts(c, ast[3], sema.asg, top=True)
+    literals_reach_graph(c)
+    gates_listing(c)
+    return c.fails
+
+
+# --------------------------------------------------------------------------------------------
+# known defects of the unchanged code: guards
+# --------------------------------------------------------------------------------------------
+def _span(d, key="span"):
+    s, e = d[key].split("-")
+    return int(s), int(e)
+
+
+def _slice(src, s, e):
+    return src.encode("utf-8")[s:e].decode("utf-8", errors="replace")
+
+
+def _errors(sema_line):
+    sm = parse_sema(sema_line)
+    return sm.errors if sm else []
+
+
+def g_F17(src, ast_line, sema_line, f):
+    """literal designator >= 2^32 and the recorded width is exactly value mod 2^32, no diagnostic"""
+    if f[:2] != ("C09", "width_truncated"):
+        return False
+    d = kv(f[2])
+    s, e = _span(d)
+    w = int_text_value(_slice(src, s, e))
+    if w is None or w != int(d["written"]) or w < TWO32 or d["recorded"] == "-":
+        return False
+    if any(k in WIDTH_DIAG and s - 1 <= a and b <= e + 1 for k, a, b in _errors(sema_line)):
+        return False
+    return int(d["recorded"]) == w % TWO32
+
+
+def _narrowed_const(d):
+    """target and value of the same width-carrying kind, value const, target non-const and narrower"""
+    kt, wt, ct = tinfo(d["target"])
+    kv_, wv, cv = tinfo(d["value"])
+    return (kt == kv_ and kt in ("Int", "UInt", "Float") and cv is True and ct is False
+            and isinstance(wt, int) and (wv is None or wv > wt) and d["cast"] == "0")
+
+
+def g_F18a(src, ast_line, sema_line, f):
+    """`const int n = 3; int[8] y = n;`: a const IDENTIFIER initializer wider than the non-const target"""
+    if f[:2] != ("C08", "decl_decision"):
+        return False
+    d = kv(f[2])
+    return d["form"] == "Ident" and _narrowed_const(d)
+
+
+def g_F18b(src, ast_line, sema_line, f):
+    """`int[8] y = 1+2;`: a const non-literal, non-identifier initializer wider than the non-const target"""
+    if f[:2] != ("C08", "decl_decision"):
+        return False
+    d = kv(f[2])
+    return d["form"] in ("Bin", "Cast", "Un", "Call") and _narrowed_const(d)
+
+
+def g_F18c(src, ast_line, sema_line, f):
+    """imaginary integer literal typed Int 64 (not complex), hence accepted by int / float targets"""
+    d = kv(f[2])
+    if f[:2] == ("C08", "imaginary_int_literal_type"):
+        return d["lit"].startswith("ImInt ") and d["got"] == "Int_64_c"
+    if f[:2] == ("C08", "no_silent_downward"):
+        return (d["cls"] == "complex_to_real" and d["form"].startswith("Lit:ImInt") and d["orig"] == "Int_64_c"
+                and tinfo(d["target"])[0] in ("Int", "Float"))
+    return False
+
+
+def g_F18d(src, ast_line, sema_line, f):
+    """`duration d; d = 1;`: an integer literal assigned to a non-uint target: no cast, no diagnostic"""
+    if f[0] != "C08" or f[1] not in ("assign_decision", "no_silent_downward"):
+        return False
+    d = kv(f[2])
+    if f[1] == "no_silent_downward" and d.get("stmt") != "assign":
+        return False
+    return (d["form"] in ("Lit:Int+", "Lit:Int-") and d["cast"] == "0" and d["orig"] == "Int_128_c"
+            and tinfo(d["target"])[0] != "UInt")
+
+
+_IDENT_TAIL = re.compile(r"^[A-Za-z_µα-ω][A-Za-z0-9_µα-ω]*$")
+
+
+def g_N01(src, ast_line, sema_line, f):
+    """a numeric / bit-string literal with an identifier-like suffix glued on is one token and accepted"""
+    if f[0] != "C10" or f[1] not in ("int_suffix_accepted", "float_suffix_accepted", "bitstring_suffix_accepted"):
+        return False
+    d = kv(f[2])
+    s, e = _span(d)
+    text = _slice(src, s, e)
+    if tohex(text) != d["text"]:
+        return False
+    canon = {"int_suffix_accepted": int_text_value, "float_suffix_accepted": float_text_value,
+             "bitstring_suffix_accepted": lambda x: _BITSTR_CANON.match(x)}[f[1]]
+    for i in range(1, len(text)):
+        if canon(text[:i]) is not None and _IDENT_TAIL.match(text[i:]):
+            return True
+    return False
+
+
+def g_N07(src, ast_line, sema_line, f):
+    """bit string with a suffix as initializer: accessor returns None, the initializer silently vanishes"""
+    if f[:2] != ("C10", "bitstring_initializer_dropped"):
+        return False
+    s, e = _span(kv(f[2]))
+    return re.search(r"=\s*(\"[01_]*\"|'[01_]*')[A-Za-z_][A-Za-z0-9_]*\s*;?\s*$", _slice(src, s, e)) is not None
+
+
+def _void_operands(f):
+    if f[:2] != ("C08", "arith_void_undiagnosed"):
+        return None
+    d = kv(f[2])
+    return tinfo(d["l"]), tinfo(d["r"])
+
+
+def g_N02a(src, ast_line, sema_line, f):
+    """int with uint (F19c seen from C08): Void, and nothing reported"""
+    o = _void_operands(f)
+    return o is not None and {o[0][0], o[1][0]} == {"Int", "UInt"}
+
+
+def g_N02b(src, ast_line, sema_line, f):
+    """two complex operands of different width (F19b seen from C08): Void, nothing reported"""
+    o = _void_operands(f)
+    return o is not None and o[0][0] == o[1][0] == "Complex" and o[0][1] != o[1][1]
+
+
+def g_N02c(src, ast_line, sema_line, f):
+    """two operands of the same non-tower kind but different width / length: Void, nothing reported"""
+    o = _void_operands(f)
+    return (o is not None and o[0][0] == o[1][0] and o[0][0] in ("Angle", "BitArray", "QubitArray")
+            and o[0][1] != o[1][1])
+
+
+def g_N02d(src, ast_line, sema_line, f):
+    """operand kinds differ and at least one is outside int/uint/float/complex: no common type exists,
+    the node is typed Void with casts to Void, and nothing is reported"""
+    o = _void_operands(f)
+    if o is None or (o[0][0] in TOWER and o[1][0] in TOWER):
+        return False
+    same_kind_widths = o[0][0] == o[1][0] and o[0][0] in ("Angle", "BitArray", "QubitArray")
+    return not same_kind_widths
+
+
+def g_N03(src, ast_line, sema_line, f):
+    """division with a complex operand (and no float operand) is typed Float - n"""
+    if f[:2] != ("C08", "arith_common_type"):
+        return False
+    d = kv(f[2])
+    ks = (tinfo(d["l"])[0], tinfo(d["r"])[0])
+    return d["op"] == "Arith.Div" and d["node"] == "Float_-_n" and "Complex" in ks and "Float" not in ks
+
+
+def g_N04(src, ast_line, sema_line, f):
+    """const designator that does not fit u32 (or is negative): diagnosed, but width 0 is substituted"""
+    if f[:2] != ("C09", "designator_substituted_zero"):
+        return False
+    d = kv(f[2])
+    s, e = _span(d)
+    return d["recorded"] == "0" and ("InvalidDesignatorError", s, e) in _errors(sema_line)
+
+
+def g_N05(src, ast_line, sema_line, f):
+    """identifier designator naming a non-const variable: the width is dropped without a diagnostic"""
+    if f[:2] != ("C09", "nonconst_designator_silent"):
+        return False
+    d = kv(f[2])
+    s, e = _span(d)
+    return d["recorded"] == "-" and not any(a == s and b == e for _, a, b in _errors(sema_line))
+
+
+def g_N06(src, ast_line, sema_line, f):
+    """identifier designator naming a const of NON-integer type initialised by an integer literal is
+    accepted as a width (or dropped) without a diagnostic"""
+    if f[:2] != ("C09", "nonint_const_designator"):
+        return False
+    d = kv(f[2])
+    s, e = _span(d)
+    return d["kind"] not in ("Int", "UInt") and not any(a == s and b == e for _, a, b in _errors(sema_line))
+
+
+def g_N08(src, ast_line, sema_line, f):
+    """a gate named U defined in a nested scope is filtered out of gates() by name"""
+    if f[:2] != ("C09", "gates_listing"):
+        return False
+    d = kv(f[2])
+    miss = [m for m in d["missing"].split(",") if m]
+    return d["extra"] == "" and bool(miss) and all(m.startswith("U:") for m in miss) \
+        and int(d["n_want"]) - int(d["n_got"]) == len(miss)
+
+
+def _find_node(n, kind, s, e):
+    if isinstance(n, list) and n:
+        if n[0] == kind and len(n) > 2 and n[1] == str(s) and n[2] == str(e):
+            return n
+        for x in n:
+            r = _find_node(x, kind, s, e)
+            if r is not None:
+                return r
+    return None
+
+
+def g_N09(src, ast_line, sema_line, f):
+    """`x[LIT] = y;`: AssignmentStmt::identifier() returns the first Identifier child, which is the
+    right-hand side `y` when the target is indexed, so the pass translates `y = y` and the index
+    (with its literals) never reaches the graph"""
+    if f[:2] != ("C10", "literal_reaches_graph"):
+        return False
+    d = kv(f[2])
+    if d["stmt"] != "AssignmentStmt":
+        return False
+    ls, le = _span(d)
+    ss, se = _span(d, "stmt_span")
+    ast, _ = parse_sexp(ast_line, 0)
+    st = _find_node(ast, "AssignmentStmt", ss, se)
+    if st is None or st[3] == "_" or st[5] == "_" or not isinstance(st[4], list):
+        return False
+    ident, rhs, ixd = st[3], st[4], st[5]
+    return (rhs[0] == "Identifier" and ident[1:3] == rhs[1:3]
+            and int(ixd[1]) <= ls and le <= int(ixd[2]))
+
+
+GUARDS = {
+    "F17": g_F17, "F18a": g_F18a, "F18b": g_F18b, "F18c": g_F18c, "F18d": g_F18d,
+    "N01": g_N01, "N02a": g_N02a, "N02b": g_N02b, "N02c": g_N02c, "N02d": g_N02d, "N03": g_N03,
+    "N04": g_N04, "N05": g_N05, "N06": g_N06, "N07": g_N07, "N08": g_N08, "N09": g_N09,
+}
+
+FINDINGS = {
+    "F17": {"property": "C09", "checks": ["width_truncated"],
+            "what": "literal designator >= 2^32 is truncated (`value as u32`) without a diagnostic",
+            "witness": "int[4294967297] x;"},
+    "F18a": {"property": "C08", "checks": ["decl_decision"],
+             "what": "const identifier initializer wider than the non-const target: no cast, no diagnostic",
+             "witness": "const int n = 3; int[8] y = n;"},
+    "F18b": {"property": "C08", "checks": ["decl_decision"],
+             "what": "const arithmetic / cast / call initializer wider than the non-const target: no cast, no diagnostic",
+             "witness": "int[8] y = 1+2;"},
+    "F18c": {"property": "C08", "checks": ["imaginary_int_literal_type", "no_silent_downward"],
+             "what": "imaginary integer literal is typed Int 64 c instead of complex, so int/float targets accept it",
+             "witness": "float f = 2im;"},
+    "F18d": {"property": "C08", "checks": ["assign_decision", "no_silent_downward"],
+             "what": "integer literal assigned to any non-uint variable: neither cast nor diagnostic",
+             "witness": "duration d; d = 1;"},
+    "N01": {"property": "C10", "checks": ["int_suffix_accepted", "float_suffix_accepted", "bitstring_suffix_accepted"],
+            "what": "identifier-like suffix glued to a literal is lexed into the literal token and the program is accepted",
+            "witness": "int x = 3ab;"},
+    "N02a": {"property": "C08", "checks": ["arith_void_undiagnosed"],
+             "what": "int (op) uint is typed Void with both operands cast to Void; nothing reported (F19c at C08)",
+             "witness": "int a; uint b; a + b;"},
+    "N02b": {"property": "C08", "checks": ["arith_void_undiagnosed"],
+             "what": "complex operands of different widths are typed Void; nothing reported (F19b at C08)",
+             "witness": "complex[float[32]] a; complex[float[64]] b; a + b;"},
+    "N02c": {"property": "C08", "checks": ["arith_void_undiagnosed"],
+             "what": "angle/bit-register operands of different widths are typed Void; nothing reported",
+             "witness": "angle[8] a; angle[16] b; a + b;"},
+    "N02d": {"property": "C08", "checks": ["arith_void_undiagnosed"],
+             "what": "operands without a common type (bit, bool, duration, angle ... mixed) give a Void node; nothing reported",
+             "witness": "bool a; duration b; a + b;"},
+    "N03": {"property": "C08", "checks": ["arith_common_type"],
+            "what": "division with a complex operand and no float operand is typed Float - n (both operands cast down)",
+            "witness": "complex c; c / 2;"},
+    "N04": {"property": "C09", "checks": ["designator_substituted_zero"],
+            "what": "const designator that is negative or >= 2^32: InvalidDesignatorError is logged but width 0 is recorded",
+            "witness": "const int n = 5000000000; int[n] x;"},
+    "N05": {"property": "C09", "checks": ["nonconst_designator_silent"],
+            "what": "designator naming a non-const variable: width silently dropped",
+            "witness": "int m; int[m] x;"},
+    "N06": {"property": "C09", "checks": ["nonint_const_designator"],
+            "what": "designator naming a const of non-integer type is used as a width without a diagnostic",
+            "witness": "const float n = 3; int[n] x;"},
+    "N07": {"property": "C10", "checks": ["bitstring_initializer_dropped"],
+            "what": "bit string with suffix: BitString::str() is None and the initializer disappears from the graph silently",
+            "witness": "bit[3] b = \"101\"abc;"},
+    "N08": {"property": "C09", "checks": ["gates_listing"],
+            "what": "gates() filters by the NAME U, so a user gate named U bound in a nested scope is missing from the listing",
+            "witness": "if (true) { gate U q {} }"},
+    "N09": {"property": "C10", "checks": ["literal_reaches_graph"],
+            "what": "indexed assignment with an identifier right-hand side is translated as `rhs = rhs`: "
+                    "AssignmentStmt::identifier() picks the rhs identifier, the index literals never reach the graph",
+            "witness": "bit[4] b; bit c; b[1] = c;"},
+}
+
+
+def attribute(src, ast_line, sema_line, failure):
+    """finding ids whose guard holds for this failure"""
+    out = []
+    for fid, g in GUARDS.items():
+        try:
+            if g(src, ast_line, sema_line, failure):
+                out.append(fid)
+        except (KeyError, ValueError, IndexError):
+            pass
+    return out
+
+
+# --------------------------------------------------------------------------------------------
+# generators
+# --------------------------------------------------------------------------------------------
+import random  # noqa: E402
+
+
+def _int_values(r):
+    k = r.randrange(0, 129)
+    c = r.random()
+    if c < 0.08:
+        return r.choice([0, 1, 2, 7, 8, 9, 10, 15, 16, 255, 256])
+    if c < 0.55:
+        v = (1 << k) + r.choice([-1, 0, 1])
+    else:
+        v = r.getrandbits(r.randrange(1, 129))
+    return max(0, min(v, TWO128 - 1))
+
+
+def _underscores(r, digits, allow_leading):
+    """insert underscores at random legal places of a digit run"""
+    if r.random() < 0.55:
+        return digits
+    out = []
+    for i, ch in enumerate(digits):
+        if (i > 0 or allow_leading) and r.random() < 0.25:
+            out.append("_" * r.choice([1, 1, 1, 2]))
+        out.append(ch)
+    if r.random() < 0.15:
+        out.append("_" * r.choice([1, 2]))
+    return "".join(out)
+
+
+def spell_int(r, v, radices=("d", "b", "o", "x"), upper_prefix=0.08):
+    rad = r.choice(radices)
+    if rad == "d":
+        return _underscores(r, str(v), False)
+    digs = {"b": format(v, "b"), "o": format(v, "o"), "x": format(v, "x")}[rad]
+    if rad == "x":
+        digs = "".join(ch.upper() if r.random() < 0.5 else ch for ch in digs)
+    p = rad.upper() if r.random() < upper_prefix else rad
+    return "0" + p + _underscores(r, digs, True)
+
+
+def spell_float(r, trailing_dot_exp=False):
+    ip = str(r.getrandbits(r.choice([1, 4, 10, 30, 64, 100]))) if r.random() < 0.9 else "0"
+    fp = "".join(r.choice("0123456789") for _ in range(r.choice([1, 1, 2, 3, 8, 17, 25])))
+    ex = ""
+    if r.random() < 0.5:
+        mag = r.choice([0, 1, 2, 3, 10, 22, 23, 100, 307, 308, 309, 323, 324, 400])
+        digs = _underscores(r, str(mag), r.random() < 0.2)
+        ex = r.choice("eE") + r.choice(["", "+", "-"]) + digs
+    shape = r.choice(["i.f", "i.f", ".f", "i.", "ie", "i.fe"])
+    ipu, fpu = _underscores(r, ip, False), _underscores(r, fp, False)
+    if shape == "i.f":
+        return ipu + "." + fpu + ex
+    if shape == ".f":
+        return "." + fpu + ex
+    if shape == "i.":
+        # `5.` ; with an exponent only the unsigned form `1.e2` survives the lexer
+        if ex and not trailing_dot_exp:
+            ex = ex[0] + ex[1:].lstrip("+-")
+        return ipu + "." + ex
+    if shape == "ie":
+        return ipu + (ex or "e3")
+    return ipu + "." + fpu + (ex or "E-3")
+
+
+def spell_bits(r):
+    n = r.choice([0, 1, 2, 3, 8, 16, 31, 32, 33, 64, 100, 255, 256])
+    n = r.randrange(0, 257) if r.random() < 0.4 else n
+    bits = "".join(r.choice("01") for _ in range(n))
+    if r.random() < 0.4 and n > 1:
+        out = []
+        for i, ch in enumerate(bits):
+            if i > 0 and r.random() < 0.15:
+                out.append("_")
+            out.append(ch)
+        bits = "".join(out)
+        if r.random() < 0.1:
+            bits = "_" + bits
+        if r.random() < 0.1:
+            bits = bits + "_"
+    q = r.choice("\"'")
+    return q + bits + q
+
+
+_UNIT_TEXTS = ["s", "ms", "us", "µs", "ns", "dt"]
+
+
+def gen_literal(r):
+    """-> (text, cls) with cls in int float bits bool timing imag"""
+    c = r.random()
+    if c < 0.36:
+        return spell_int(r, _int_values(r)), "int"
+    if c < 0.56:
+        return spell_float(r, trailing_dot_exp=r.random() < 0.05), "float"
+    if c < 0.68:
+        return spell_bits(r), "bits"
+    if c < 0.73:
+        return r.choice(["true", "false"]), "bool"
+    num = spell_int(r, _int_values(r), radices=("d", "d", "b", "o"), upper_prefix=0.0) if r.random() < 0.5 \
+        else spell_float(r)
+    sep = r.choice(["", "", " ", "  "])
+    if c < 0.88:
+        return num + sep + r.choice(_UNIT_TEXTS), "timing"
+    return num + sep + "im", "imag"
+
+
+def gen_literal_programs(seed, n):
+    """small programs that carry literals of every class through contexts the pass can translate"""
+    r = random.Random(seed * 1000003 + 17)
+    out = []
+    for _ in range(n):
+        stmts = []
+        if r.random() < 0.15:
+            stmts.append(r.choice(["/* µτ */", "// π\n", "OPENQASM 3.0;"]))
+        for _ in range(r.choice([1, 1, 2, 3])):
+            lit, cls = gen_literal(r)
+            negable = cls in ("int", "float", "imag")
+            ctxs = ["%s;", "x = %s;", "int x = %s;", "a + %s;", "(%s);", "U(%s, 0, pi) $0;", "return %s;",
+                    "if (true) { %s; }", "for int i in {%s, 1} { }", "switch (%s) { case 1 { } }",
+                    "y[%s];", "gphase(%s);", "const float[64] k = %s;", "float f; f = %s;", "%s * %s;",
+                    "let z = %s;", "while (false) y = %s;", "def f() { return %s; }", "int[8](%s);"]
+            if negable:
+                ctxs += ["-%s;", "- %s;", "x = -%s;", "a + -%s;", "float g = -%s;", "(-%s);", "U(-%s, 1, 2) $1;"]
+            if cls == "timing":
+                ctxs += ["delay[%s] $0;", "duration d = %s;", "const duration d = %s;", "stretch st = %s;"]
+            if cls == "bits":
+                ctxs += ["bit[4] b = %s;", "creg c[3]; c = %s;"]
+            if cls == "imag":
+                ctxs += ["complex c = %s;", "complex[float[32]] c; c = %s;", "float f = %s;"]
+            if cls == "int":
+                ctxs += ["for int i in [%s:4] { }", "uint u = %s;", "const int n = %s;", "bit[8] b; b[%s] = 1;"]
+            if cls == "bool":
+                ctxs += ["bool b = %s;", "if (%s) { }"]
+            t = r.choice(ctxs)
+            if t.count("%s") == 2:
+                l2, c2 = gen_literal(r)
+                if c2 in ("bits", "bool") and False:
+                    pass
+                stmts.append(t % (lit, l2))
+            else:
+                stmts.append(t % lit)
+        if r.random() < 0.03:
+            # glued suffixes (N01 / N07)
+            stmts.append(r.choice(["int q1 = 3ab;", "0B101;", "0XfF;", "1.5ab;", "bit[3] b2 = \"101\"abc;", "7_x;"]))
+        out.append(r.choice([" ", "\n", " /* µ */ "]).join(stmts))
+    return out
+
+
+_W_SWEEP = [1, 2, 3, 8, 16, 31, 32, 63, 64, 128, 1 << 31, (1 << 32) - 1, 1 << 32, (1 << 32) + 1, (1 << 32) + 7,
+            1 << 33, (1 << 64) + 5]
+_SCALARS = ["int", "uint", "float", "angle", "complex", "bool", "bit", "duration", "stretch"]
+
+
+def _type_text(r, base, w):
+    if base in ("bool", "duration", "stretch") or w is None:
+        return base
+    if base == "complex":
+        return "complex[float[%s]]" % w
+    return "%s[%s]" % (base, w)
+
+
+def _init_for(r, base):
+    return {"int": "3", "uint": "3", "float": "1.5", "angle": "0.5", "complex": "1.5im", "bool": "true",
+            "bit": "\"1\"", "duration": "3ns", "stretch": "3ns"}[base]
+
+
+def gen_decl_programs(seed, n):
+    """declarations of every form x widths across [1, 2^33] (literal and identifier designators),
+    gate / def signatures, arithmetic over operand type pairs, stdgates listing"""
+    r = random.Random(seed * 7919 + 5)
+    out = []
+    ops = ["+", "-", "*", "/", "%", "<<", ">>", "|", "&", "^"]
+    smallw = [None, 8, 16, 32, 64]
+    for _ in range(n):
+        c = r.random()
+        base = r.choice(_SCALARS)
+        w = r.choice(_W_SWEEP)
+        wt = spell_int(r, w, upper_prefix=0.0) if r.random() < 0.3 else str(w)
+        if c < 0.2:
+            # literal designator sweep over the declaration forms
+            form = r.choice(["classical", "const", "io", "qubit", "loop", "defparam", "cast", "nested"])
+            ty = _type_text(r, base, wt if r.random() < 0.85 else None)
+            if form == "classical":
+                p = "%s x;" % ty
+            elif form == "const":
+                p = "const %s x = %s;" % (ty, _init_for(r, base))
+            elif form == "io":
+                p = "%s %s x;" % (r.choice(["input", "output"]), ty)
+            elif form == "qubit":
+                p = r.choice(["qubit[%s] q;", "qreg q[%s];", "bit[%s] b;", "creg c[%s];"]) % wt
+            elif form == "loop":
+                p = "for %s i in [0:3] { %s; }" % (_type_text(r, r.choice(["int", "uint", "float"]), wt), "i")
+            elif form == "defparam":
+                p = "def f(%s a, qubit[%s] q, %s b) -> %s { }" % (
+                    ty, r.choice([1, 2, 5]), _type_text(r, r.choice(_SCALARS), r.choice(smallw)),
+                    _type_text(r, r.choice(_SCALARS), r.choice(smallw)))
+            elif form == "cast":
+                p = "int a; %s(a);" % _type_text(r, r.choice(["int", "uint", "float", "angle"]), r.choice([None, 8, 32, wt]))
+            else:
+                p = "if (true) { %s x; } def g() { const %s y = %s; }" % (ty, ty, _init_for(r, base))
+        elif c < 0.42:
+            # identifier designators
+            v = r.choice(_W_SWEEP + [0, 5, 7])
+            kind = r.choice(["constint", "constint", "constuint", "constw", "neg", "constfloat", "constangle",
+                             "nonconst", "nonconstinit", "input", "constbool"])
+            decl = {
+                "constint": "const int n = %d;" % v,
+                "constuint": "const uint n = %d;" % v,
+                "constw": "const int[%d] n = %d;" % (r.choice([8, 16, 32, 64]), v),
+                "neg": "const int n = -%d;" % max(v, 1),
+                "constfloat": "const float n = %d;" % v,
+                "constangle": "const angle[8] n = %d;" % v,
+                "nonconst": "%s n;" % r.choice(["int", "uint[8]", "float", "bool", "duration"]),
+                "nonconstinit": "int n = %d;" % v,
+                "input": "input int n;",
+                "constbool": "const complex n = %d;" % v,
+            }[kind]
+            use = r.choice(["%s x;", "const %s x = 1;", "input %s x;", "qubit[n] q;", "bit[n] b;",
+                            "def f(%s a) { }", "for %s i in [0:1] { }", "if (true) { %s x; }", "gate g q { %s x; }"])
+            b2 = r.choice(["int", "uint", "float", "angle", "complex", "bit"])
+            p = decl + " " + (use % _type_text(r, b2, "n") if "%s" in use else use)
+        elif c < 0.55:
+            # gate and def signatures
+            na, nq = r.randrange(0, 5), r.randrange(1, 5)
+            angs = ["a%d" % i for i in range(na)]
+            qs = ["q%d" % i for i in range(nq)]
+            if r.random() < 0.1 and na > 1:
+                angs[1] = angs[0]
+            g = "gate g%s %s { %s }" % ("(" + ", ".join(angs) + ")" if (na or r.random() < 0.3) else "",
+                                         ", ".join(qs), r.choice(["", "U(0, 0, 0) q0;", "gphase(1.0);"]))
+            npar = r.randrange(0, 5)
+            pars = []
+            for i in range(npar):
+                pb = r.choice(_SCALARS + ["qubit"])
+                pars.append("%s p%d" % (_type_text(r, pb, r.choice(smallw + [wt])) if pb != "qubit"
+                                       else r.choice(["qubit", "qubit[3]"]), i))
+            ret = "" if r.random() < 0.3 else " -> " + _type_text(r, r.choice(_SCALARS), r.choice(smallw))
+            d = "def f(%s)%s { }" % (", ".join(pars), ret)
+            extra = r.choice(["", "qubit z; let al = z;", "qubit[4] z; let al = z[0:1];", "if (true) { gate U q {} }",
+                              "include \"stdgates.inc\";", "gate x q { } include \"stdgates.inc\";",
+                              "include \"stdgates.inc\"; gate h q { }"])
+            p = " ".join(r.sample([g, d, extra], 3))
+        elif c < 0.85:
+            # arithmetic over operand type pairs; declaration / assignment from each value form
+            ta = _type_text(r, r.choice(_SCALARS), r.choice(smallw))
+            tb = _type_text(r, r.choice(_SCALARS), r.choice(smallw))
+            ca = "const " if r.random() < 0.3 else ""
+            cb = "const " if r.random() < 0.3 else ""
+            ia = " = " + _init_for(r, ta.split("[")[0]) if (ca or r.random() < 0.3) else ""
+            ib = " = " + _init_for(r, tb.split("[")[0]) if (cb or r.random() < 0.3) else ""
+            tt = _type_text(r, r.choice(_SCALARS), r.choice(smallw))
+            val = r.choice(["a %s b" % r.choice(ops), "a", "b", "-a", "(a %s 2)" % r.choice(ops),
+                            "a %s 1.5" % r.choice(ops), "%s(a)" % tb, "f(a)", "measure q", "measure qq",
+                            "2 %s 3" % r.choice(ops), "a %s b %s a" % (r.choice(ops), r.choice(ops)), "5", "-5", "2.5",
+                            "3im", "2.5im", "true", "\"0101\"", "4ns"])
+            use = r.choice(["%s;" % val, "%s t = %s;" % (tt, val), "const %s t = %s;" % (tt, val),
+                            "%s t; t = %s;" % (tt, val)])
+            p = "qubit q; qubit[4] qq; %s%s a%s; %s%s b%s; def f(%s z) -> %s { return z; } %s" % (
+                ca, ta, ia, cb, tb, ib, ta, tb, use)
+        else:
+            # designators in casts / return types / nested forms with suffix spellings
+            p = r.choice([
+                "include \"stdgates.inc\"; qubit q; h q; cx q, q;",
+                "gate cx a, b { } include \"stdgates.inc\";",
+                "include \"stdgates.inc\"; include \"stdgates.inc\";",
+                "qubit q; gate g(t) a { U(t, 0, 0) a; } g(1.5) q;",
+                "const int n = 4; qubit[n] q; bit[n] c; c = measure q;",
+                "bit[%s] b = \"101\";" % wt,
+                "complex[float[%s]] z = 2.5im;" % wt,
+                "input angle[%s] th; output bit[%s] o;" % (r.choice([8, 16]), r.choice([1, 4])),
+            ])
+        out.append(p)
+    return out
+
+
+# --------------------------------------------------------------------------------------------
+# runner
+# --------------------------------------------------------------------------------------------
+EXE = "/verif/harness/target/debug/oq3-run"
+
+
+def _enc(s):
+    return ".".join("%x" % ord(ch) for ch in s)
+
+
+def run_harness(mode, srcs, exe=EXE):
+    import subprocess
+    if not srcs:
+        return []
+    p = subprocess.run([exe, mode], input="\n".join(_enc(s) for s in srcs) + "\n",
+                       capture_output=True, text=True)
+    lines = p.stdout.split("\n")
+    if lines and lines[-1] == "":
+        lines.pop()
+    if len(lines) != len(srcs):
+        raise RuntimeError("%s %s: %d lines for %d cases (rc=%s)" % (exe, mode, len(lines), len(srcs), p.returncode))
+    return lines
+
+
+def _selftest(exe=EXE):
+    """the oracle has teeth: each deliberately corrupted (ast_line, sema_line) pair must be flagged"""
+    cases = [
+        # (source, which line, old, new, check name that must fire)
+        ("int x = 42;", "sema", "(Int 42 +)", "(Int 43 +)", "int_value"),
+        ("int[8] x = 5;", "sema", "7:x78:Int_8_n", "7:x78:Int_9_n", "declared_type"),
+        ("int[8] x = 5;", "sema", "7:x78:Int_8_n", "7:x78:Int_8_c", "declared_type"),
+        ("float[32] x = 5;", "sema", "(T Float_32_n (Cast Float_32_n (T Int_128_c (Lit (Int 5 +)))))",
+         "(T Int_128_c (Lit (Int 5 +)))", "decl_decision"),
+        ("int x = 2.5;", "sema", "errors=IncompatibleTypesError@0-12", "errors=", "decl_decision"),
+        ("int x = 2.5;", "sema", "errors=IncompatibleTypesError@0-12", "errors=", "no_silent_downward"),
+        ("1.5;", "sema", "f:1.5", "f:1.5000000000000002", "float_value"),
+        ("\"0101\";", "sema", "BitArray_4_c", "BitArray_5_c", "bitstring_width"),
+        ("\"0101\";", "sema", "b:0101", "b:0111", "bitstring_value"),
+        ("3ns;", "sema", "NanoSecond", "MicroSecond", "timing_int_value"),
+        ("-7;", "sema", "(Int 7 -)", "(Int 7 +)", "int_value_neg"),
+        ("true;", "sema", "(Bool 1)", "(Bool 0)", "bool_value"),
+        ("int a; float b; a + b;", "sema", "(T Float_-_n (Bin", "(T Int_-_n (Bin", "well_typed"),
+        ("int[8] a; int[16] b; a + b;", "sema", "(T Int_16_n (Bin Arith.Add (T Int_16_n (Cast Int_16_n (T Int_8_n",
+         "(T Int_4_n (Bin Arith.Add (T Int_4_n (Cast Int_4_n (T Int_8_n", "arith_common_type"),
+        ("gate g(a) q {}", "sema", "gates=g:1:1", "gates=g:2:1", "gates_listing"),
+        ("gate g(a) q {}", "sema", ":Gate_1_1;", ":Gate_2_1;", "gate_signature"),
+        ("qubit q; bit b = measure q;", "sema", "(T Bit_n (Measure", "(T Bool_n (Measure", "well_typed"),
+        ("0x1F;", "ast", "(IntNumber x30.78.31.46 31)", "(IntNumber x30.78.31.46 32)", "accessor_int"),
+        ("int x; x;", "sema", "(T Int_-_n (Ident ok:7))", "(T Float_-_n (Ident ok:7))", "well_typed"),
+        ("include \"stdgates.inc\";", "sema", ",cx:0:2", "", "stdgates_listing"),
+        ("def f(int[8] a) -> float[32] { return 1.5; }", "sema", "Float_32_c))", "Float_64_c))", "def_return_printed"),
+        ("def f(int[8] a) -> float[32] { return 1.5; }", "sema", ":Int_8_n", ":Int_8_c", "declared_type"),
+        ("uint u; u = -1;", "sema", "errors=CastError@8-15", "errors=", "assign_decision"),
+        ("uint u; u = -1;", "sema", "errors=CastError@8-15", "errors=", "no_silent_downward"),
+        ("const int n = 4; bit[n] b;", "sema", "BitArray_4_n", "BitArray_5_n", "const_designator"),
+        ("2.5im;", "sema", "(ImFloat f:2.5)", "(ImFloat f:-2.5)", "imag_float_value"),
+        ("int[4294967297] x;", "sema", "Int_1_n", "Int_2_n", "width_truncated"),
+        ("qubit[3] q;", "sema", "QubitArray_3", "QubitArray_4", "declared_type"),
+        ("int[32](1.5);", "sema", "Int_32_c", "Int_16_c", "cast_written_type"),
+        ("1_000.5e1;", "ast", "x31.30.30.30.35", "x31.30.30.30.36", "accessor_float"),
+    ]
+    srcs = sorted({c[0] for c in cases})
+    al = dict(zip(srcs, run_harness("ast", srcs, exe)))
+    sl = dict(zip(srcs, run_harness("sema", srcs, exe)))
+    n = 0
+    for src, which, old, new, want in cases:
+        a, s = al[src], sl[src]
+        base = check(src, a, s)
+        base_un = [f for f in base if not attribute(src, a, s, f)]
+        assert not base_un, ("selftest base case not clean", src, base_un)
+        line = a if which == "ast" else s
+        assert old in line, ("selftest: pattern not in line", src, old, line)
+        line2 = line.replace(old, new)
+        fs = check(src, line2 if which == "ast" else a, line2 if which == "sema" else s)
+        new_fs = [f for f in fs if f not in base]
+        assert any(f[1] == want for f in new_fs), ("selftest: corruption NOT flagged", src, old, new, want, new_fs)
+        # the F17 guard must not absorb a width that is not value mod 2^32
+        if want == "width_truncated":
+            f = [f for f in new_fs if f[1] == want][0]
+            assert not g_F17(src, a, line2, f), "F17 guard too wide"
+        n += 1
+    # every finding's witness is flagged and attributed to exactly its own finding
+    ws = [FINDINGS[k]["witness"] for k in FINDINGS]
+    wa, wsem = run_harness("ast", ws, exe), run_harness("sema", ws, exe)
+    for k, src, a, s in zip(FINDINGS, ws, wa, wsem):
+        fs = check(src, a, s)
+        ids = [attribute(src, a, s, f) for f in fs]
+        assert any(i == [k] for i in ids), ("witness of %s is not attributed to it" % k, src, fs, ids)
+        assert all(len(i) == 1 for i in ids), ("witness of %s has unattributed / ambiguous failures" % k, fs, ids)
+    return n, len(ws)
+
+
+def main(argv=None):
+    import argparse
+    import time
+    ap = argparse.ArgumentParser(description="C08/C09/C10 oracle: validation run on the unchanged code")
+    ap.add_argument("--n", type=int, default=20000, help="number of gen_prog cases (spread over 4 seeds)")
+    ap.add_argument("--seed", type=int, default=1)
+    ap.add_argument("--lit", type=int, default=6000, help="number of gen_literal_programs cases")
+    ap.add_argument("--decl", type=int, default=6000, help="number of gen_decl_programs cases")
+    ap.add_argument("--exe", default=EXE)
+    ap.add_argument("--show", type=int, default=5, help="unattributed failures to print")
+    args = ap.parse_args(argv)
+    sys.path.insert(0, "/verif/vf")
+    import gen_prog
+    t0 = time.time()
+    nt, nw = _selftest(args.exe)
+    print("selftest: %d corruptions flagged, %d finding witnesses attributed" % (nt, nw))
+    sets = []
+    per = (args.n + 3) // 4
+    for i in range(4):
+        sets.append(("gen_prog seed %d" % (args.seed + i), gen_prog.gen_programs(args.seed + i, per)))
+    sets.append(("table_programs", gen_prog.table_programs()))
+    sets.append(("gen_literal_programs", gen_literal_programs(args.seed, args.lit)))
+    sets.append(("gen_decl_programs", gen_decl_programs(args.seed, args.decl)))
+    COUNTS.clear()
+    total = skipped = 0
+    skip_kinds = collections.Counter()
+    by = collections.Counter()
+    unattributed = []
+    ambiguous = []
+    for name, srcs in sets:
+        al = run_harness("ast", srcs, args.exe)
+        sl = run_harness("sema", srcs, args.exe)
+        ran = 0
+        for src, a, s in zip(srcs, al, sl):
+            total += 1
+            if not a.startswith("(Program") or not s.startswith("asg="):
+                skipped += 1
+                skip_kinds[(s if not s.startswith("asg=") else a).split(" ")[0]] += 1
+                continue
+            ran += 1
+            for f in check(src, a, s):
+                ids = attribute(src, a, s, f)
+                if len(ids) == 1:
+                    by[(f[0], f[1], ids[0])] += 1
+                elif not ids:
+                    unattributed.append((src, f, s))
+                else:
+                    ambiguous.append((src, f, ids))
+        print("%-28s %6d cases, %6d analysed" % (name, len(srcs), ran))
+    print("cases run: %d   analysed: %d   skipped: %d  %s" % (total, total - skipped, skipped, dict(skip_kinds)))
+    print("clauses evaluated per check name:")
+    for k in sorted(COUNTS):
+        print("  %8d  %s" % (COUNTS[k], k))
+    print("failures by (property, check, finding):")
+    for k in sorted(by):
+        print("  %8d  %s %s -> %s" % (by[k], k[0], k[1], k[2]))
+    print("ambiguously attributed failures: %d" % len(ambiguous))
+    for src, f, ids in ambiguous[:args.show]:
+        print("   ", ids, f, repr(src)[:200])
+    print("unattributed failures: %d" % len(unattributed))
+    for src, f, s in unattributed[:args.show]:
+        print("   ", f)
+        print("      src:", repr(src)[:300])
+    print("elapsed %.1fs" % (time.time() - t0))
+    return 1 if (unattributed or ambiguous) else 0
+
+
+if __name__ == "__main__":
+    sys.exit(main())
